@@ -23,7 +23,7 @@ FACTORS = [
     ("metric", ["ess", "vv"]),
     ("steps", ["default", "short"]),
     ("likelihood", ["scalar", "vectorized", "blobs"]),
-    ("boundaries", ["none", "periodic", "reflective", "mixed"]),
+    ("boundaries", ["none", "periodic", "reflective", "mixed", "empty-lists", "one-empty"]),
     ("pool", [None, 1, 2]),
     ("save_every", [None, 1, 3]),
 ]
@@ -95,6 +95,10 @@ def build(cfg, out):
         kw["reflective"] = [1]
     elif b == "mixed":
         kw.update(periodic=[1], reflective=[0])
+    elif b == "empty-lists":
+        kw.update(periodic=[], reflective=[])
+    elif b == "one-empty":
+        kw.update(periodic=[0], reflective=[])
     return tempest.Sampler(prior, like, **kw)
 
 
